@@ -23,9 +23,9 @@ import (
 
 // Signatures of what can fail.
 const (
-	sigReplay      = "C03/replay-accepted-within-validity" // same salt accepted twice while its timestamp validates, 60 s or more after the first acceptance
+	sigReplay      = "C03/replay-accepted-within-validity" // same salt accepted twice, 60 s or more after the first acceptance (timestamp outlived the salt retention)
 	sigReplayEarly = "C03/replay-accepted-within-60s"      // same, less than 60 s after the first acceptance
-	sigOutside     = "C03/accepted-outside-window"         // accepted although |floor(now)-ts| > 30
+	sigOutside     = "C03/accepted-outside-window"         // accepted although ts-floor(now) is not in (-30, 30]
 	sigRefused     = "C03/fresh-request-refused"           // never-accepted, in-window genuine request refused
 	sigForged      = "C03/unauthenticated-accepted"        // garbage / forged / foreign-key request accepted
 	sigConcDup     = "C03/concurrent-duplicates-accepted"  // k concurrent copies: more than one success
@@ -110,10 +110,13 @@ func (p plan) String() string {
 // d after the epoch is epoch + floor(d / 1s); only differences matter.
 func sec(d time.Duration) int64 { return int64(d / time.Second) }
 
-// validAt: the property's acceptance condition |floor(now) - ts| <= 30 with ts = floor(client instant).
+// validAt: the documented acceptance condition on whole seconds, -30 < ts - floor(now) <= 30 with
+// ts = floor(client instant) (ss2022/header.go ValidateUnixEpochTimestamp, docs/FIXES.md adaf1bd): within 30
+// seconds as the property says, and a timestamp exactly 30 whole seconds old already counts as expired, so
+// that in real time a request validates during [ts-30s, ts+30s), never longer than salts are remembered.
 func validAt(clientAt, now time.Duration) bool {
 	diff := sec(clientAt) - sec(now)
-	return diff >= -window && diff <= window
+	return diff > -window && diff <= window
 }
 
 // ---- execution -------------------------------------------------------------------------------
@@ -338,14 +341,6 @@ func execute(t *testing.T, p plan) (out outcome) {
 				case was:
 					cls = "d"
 					out.labels["replay-in-window"] = true
-					if now-acceptedAt >= 60*time.Second {
-						out.labels["replay-60s-after-accept-still-valid"] = true
-						for ai, at := range acceptLog {
-							if acceptWho[ai] != r && at >= acceptedAt+60*time.Second {
-								out.labels["replay-after-retention-with-accept-between"] = true
-							}
-						}
-					}
 				default:
 					if forgedOn[r] {
 						out.labels["fresh-after-forged-same-salt"] = true
@@ -354,10 +349,22 @@ func execute(t *testing.T, p plan) (out outcome) {
 						out.labels["valid-after-refused-as-outside-window"] = true
 					}
 				}
-				if valid && (skew == window || skew == -window) {
+				if was && now-acceptedAt >= 60*time.Second {
+					// 60 s is the documented retention of salts; whether the timestamp still validates here is the crux
+					out.labels["re-presented-60s-after-accept"] = true
+					if now-acceptedAt < 61*time.Second {
+						out.labels["re-presented-60s-to-61s-after-accept"] = true
+					}
+					for ai, at := range acceptLog {
+						if acceptWho[ai] != r && at >= acceptedAt+60*time.Second {
+							out.labels["re-presented-after-retention-with-accept-between"] = true
+						}
+					}
+				}
+				if valid && (skew == window || skew == -window+1) {
 					out.labels["skew-at-limit"] = true
 				}
-				if !valid && (skew == window+1 || skew == -window-1) {
+				if !valid && (skew == window+1 || skew == -window) {
 					out.labels["skew-just-outside"] = true
 				}
 				keyParts = append(keyParts, fmt.Sprintf("%s%d", cls, k))
@@ -366,8 +373,6 @@ func execute(t *testing.T, p plan) (out outcome) {
 				switch {
 				case succ > 1:
 					violate(sigConcDup, "step %d: %d of %d concurrent copies of r%d accepted at server instant %v", si, succ, k, r, now)
-				case succ == 1 && !valid:
-					violate(sigOutside, "step %d: r%d (client instant %v, ts=floor) accepted at server instant %v: whole-second diff %d", si, r, p.Reqs[r].At, now, skew)
 				case succ == 1 && was && now-acceptedAt < 60*time.Second:
 					violate(sigReplayEarly, "step %d: r%d (client instant %v) accepted at server instant %v and again only %v later at %v",
 						si, r, p.Reqs[r].At, acceptedAt, now-acceptedAt, now)
@@ -375,9 +380,11 @@ func execute(t *testing.T, p plan) (out outcome) {
 					if ev.IsKnown("C03", sigReplay) {
 						out.known++
 					} else {
-						violate(sigReplay, "step %d: r%d (client instant %v) accepted at server instant %v and again at %v (%v later); whole-second diff now %d, still within +-30",
+						violate(sigReplay, "step %d: r%d (client instant %v) accepted at server instant %v and again at %v (%v later, i.e. after the 60s salt retention); ts-floor(now) is now %d",
 							si, r, p.Reqs[r].At, acceptedAt, now, now-acceptedAt, skew)
 					}
+				case succ == 1 && !valid:
+					violate(sigOutside, "step %d: r%d (client instant %v, ts=floor) accepted at server instant %v: ts-floor(now) = %d is not in (-30, 30]", si, r, p.Reqs[r].At, now, skew)
 				case succ == 0 && valid && !was:
 					sig := sigRefused
 					if k > 1 {
@@ -493,9 +500,9 @@ func drawPlan(rt *rapid.T) plan {
 		case kind <= 3 && len(genuine) > 0: // advance aimed at a request's boundary
 			r := at(genuine, s.A)
 			ts := time.Duration(sec(p.Reqs[r].At)) * time.Second
-			anchors := []time.Duration{ts + (window+1)*time.Second, ts - window*time.Second}
+			anchors := []time.Duration{ts + window*time.Second, ts - window*time.Second, ts + (window+1)*time.Second}
 			if t0, ok := accepted[r]; ok {
-				anchors = []time.Duration{t0 + 60*time.Second, ts + (window+1)*time.Second, t0 + 61*time.Second, ts - window*time.Second, t0 + 60*time.Second}
+				anchors = []time.Duration{t0 + 60*time.Second, ts + window*time.Second, t0 + 61*time.Second, ts - window*time.Second, t0 + 60*time.Second, ts + (window+1)*time.Second}
 			}
 			d := at(anchors, s.B) + at(fineAlphabet, s.C) - now
 			if d < 0 {
@@ -540,7 +547,7 @@ func drawPlan(rt *rapid.T) plan {
 			if s.C%3 == 0 {
 				r = at(genuine, s.A)
 			} else {
-				skew := at([]time.Duration{30 * time.Second, -30 * time.Second, 0, 29 * time.Second, 31 * time.Second, -31 * time.Second}, s.A) + at(phaseAlphabet, s.B)
+				skew := at([]time.Duration{30 * time.Second, -29 * time.Second, 0, -30 * time.Second, 29 * time.Second, 31 * time.Second, -31 * time.Second}, s.A) + at(phaseAlphabet, s.B)
 				p.Reqs = append(p.Reqs, reqSpec{At: now + skew})
 				r = len(p.Reqs) - 1
 				genuine = append(genuine, r)
@@ -584,9 +591,9 @@ var recHist = ev.New("C03", "replay-history",
 		"server-now+skew (skew in {-31,-30,-29,-1,0,1,29,30,31}s + sub-second phase), present an existing request again, present unauthenticated "+
 		"traffic derived from a request (garbage, bit flips in fixed header/EIH/prefix, genuine salt + random, truncated, foreign key), present k in 2..8 "+
 		"copies concurrently, retention probe = accept / move to accept+{59s,60s-1ns,60s,60s+1ns,60.5s,61s-1ns,61s} / optional other accept / same bytes again}; client clock and server clock are two synctest bubbles; every presentation is judged against the model "+
-		"accept iff |floor(now)-ts|<=30 and never accepted before. Non-trivial: a request presented twice inside its validity window with another "+
+		"accept iff -30 < ts-floor(now) <= 30 (whole seconds) and never accepted before. Non-trivial: a request presented twice inside its validity window with another "+
 		"request accepted in between; distinct key = class + sequence of presentation classes").
-	Require("replay-in-window", "replay-60s-after-accept-still-valid", "replay-after-retention-with-accept-between", "fresh-after-forged-same-salt",
+	Require("replay-in-window", "re-presented-60s-to-61s-after-accept", "re-presented-after-retention-with-accept-between", "fresh-after-forged-same-salt",
 		"presented-outside-window", "skew-at-limit", "skew-just-outside", "concurrent", "valid-after-refused-as-outside-window")
 
 func record(rec *ev.Recorder, p plan, out outcome) {
@@ -619,7 +626,7 @@ func TestReplayHistory(t *testing.T) {
 // ---- bounded-exhaustive histories over a boundary alphabet ---------------------------------------
 
 var recExh = ev.New("C03", "replay-exhaustive",
-	"bounded-exhaustive: every history of length <= depth over {+1ns, +1s-1ns, +30s, +60s, new(+30s), new(0), new(-30s), new(+31s), again(first), again(last)} "+
+	"bounded-exhaustive: every history of length <= depth over {+1ns, +1s-1ns, +30s, +60s, new(+30s), new(0), new(-29s), new(-30s), new(+31s), again(first), again(last)} "+
 		"from server instant 40s, for the classes k16/k32 x {no EIH, 1 iPSK}; same model as replay-history. Non-trivial as in replay-history")
 
 func TestReplayExhaustive(t *testing.T) {
@@ -634,7 +641,7 @@ func TestReplayExhaustive(t *testing.T) {
 	if v, err := strconv.Atoi(os.Getenv("VERIF_SHARDS")); err == nil && v > 0 {
 		shards = v
 	}
-	const nsym = 10
+	const nsym = 11
 	classes := []sstcp.Class{{KeyLen: 16, Segmented: true}, {KeyLen: 32, NIPSK: 1, Fallback: true}, {KeyLen: 16, NIPSK: 1, Prefix: 1}, {KeyLen: 32, Segmented: true, Fallback: true}}
 	var total, known int64
 	seq := make([]int, depth)
@@ -667,14 +674,16 @@ func TestReplayExhaustive(t *testing.T) {
 					case 5:
 						newAt(0)
 					case 6:
-						newAt(-30 * time.Second)
+						newAt(-29 * time.Second)
 					case 7:
 						newAt(31 * time.Second)
 					case 8:
+						newAt(-30 * time.Second)
+					case 9:
 						if len(p.Reqs) > 0 {
 							p.Steps = append(p.Steps, step{Kind: stPresent, Req: 0})
 						}
-					case 9:
+					case 10:
 						if len(p.Reqs) > 0 {
 							p.Steps = append(p.Steps, step{Kind: stPresent, Req: len(p.Reqs) - 1})
 						}
@@ -720,8 +729,9 @@ func TestReplayExhaustive(t *testing.T) {
 // ---- regression: the shrunk counterexample, without rapid ----------------------------------------
 
 var recReg = ev.New("C03", "replay-regression",
-	"fixed histories: (client 30s ahead; accept; +60s; other request accepted; same bytes again) at 0/1ns/1s-1ns phases and at +61s-1ns; "+
-		"non-trivial always (request presented twice in window with an accept in between)")
+	"fixed histories: (client 30s ahead; accept; +d; other request accepted; same bytes again; 4 concurrent copies) for d in {30s,59s,60s,60s+1ns,61s-1ns} "+
+		"(the shrunk counterexample of the salt-retention defect fixed by adaf1bd) and the edges of the timestamp rule (ts-now = -31,-30,-29,+30,+31 whole seconds "+
+		"at two sub-second phases); non-trivial as in replay-history")
 
 func regressionPlans() []plan {
 	var ps []plan
@@ -731,6 +741,16 @@ func regressionPlans() []plan {
 				Reqs: []reqSpec{{At: baseServerAdv + 30*time.Second}, {At: baseServerAdv + d}},
 				Steps: []step{{Kind: stPresent, Req: 0}, {Kind: stAdv, D: d}, {Kind: stPresent, Req: 1}, {Kind: stPresent, Req: 0},
 					{Kind: stConc, Req: 0, K: 4}}})
+		}
+	}
+	// the edges of the timestamp rule itself: 30 whole seconds old is expired, 29 is not; 30 ahead is fine, 31 is not
+	for ci, c := range []sstcp.Class{{KeyLen: 16}, {KeyLen: 32, NIPSK: 1, Segmented: true, Fallback: true}} {
+		for _, start := range []time.Duration{baseServerAdv, baseServerAdv + time.Second - time.Nanosecond} {
+			ps = append(ps, plan{Class: c, Seed: uint64(200 + ci), Start: start,
+				Reqs: []reqSpec{{At: start - 30*time.Second}, {At: start - 29*time.Second}, {At: start + 31*time.Second}, {At: start + 30*time.Second},
+					{At: start - 30*time.Second - time.Nanosecond}, {At: start - 31*time.Second}},
+				Steps: []step{{Kind: stPresent, Req: 0}, {Kind: stPresent, Req: 1}, {Kind: stPresent, Req: 2}, {Kind: stPresent, Req: 3}, {Kind: stPresent, Req: 4},
+					{Kind: stPresent, Req: 5}, {Kind: stAdv, D: time.Second}, {Kind: stPresent, Req: 2}, {Kind: stPresent, Req: 1}, {Kind: stPresent, Req: 0}}})
 		}
 	}
 	return ps
